@@ -10,5 +10,5 @@ for name, un in UNITS.items():
     print(f"== {name}: {r.status} paths={r.paths} infeasible={r.infeasible} t={r.time_s:.2f}s {r.message[:1500]}")
     for s, d in r.sites.items():
         flag = '' if d['status']=='discharged' else '   <<<<<<'
-        print(f"   {d['status']:11s} {d['kind']:8s} x{d['instances']:<3d} {s}{flag}")
+        print(f"   {d['status']:11s} {d['kind']:8s} x{d['instances']:<3d} {s}{flag}" + (f"  [{d.get('time_s')}s {','.join(d.get('backends', []))}]" if d.get('time_s', 0) > 1 else ""))
         if d['status']!='discharged': print("        goal:", d['goal'][:300]); print("        model:", (d.get('model') or '')[:300])
